@@ -637,7 +637,14 @@ func (s *Server) handleRequest(req *dhcpv4.DHCPv4) (*dhcpv4.DHCPv4, error) {
 		// Allocate or verify the requested IP
 		// When using Nexus (HTTPAllocator), accept the Nexus-allocated IP
 		// even if it's outside the local pool range
-		if s.httpAllocator != nil && s.httpAllocatorPool != "" {
+		nexusIP := s.lookupNexusAllocation(ctx, mac)
+		if nexusIP != nil {
+			// Activated subscriber: only the address Nexus allocated to this
+			// client may be confirmed
+			if !nexusIP.Equal(requestedIP) {
+				atomic.AddUint64(&s.naksTotal, 1)
+				return s.buildNAK(req, "IP is not the Nexus allocation")
+			}
 			s.logger.Debug("Accepting Nexus-allocated IP in REQUEST",
 				zap.String("mac", mac.String()),
 				zap.String("ip", requestedIP.String()),
@@ -882,6 +889,20 @@ func (s *Server) handleRequest(req *dhcpv4.DHCPv4) (*dhcpv4.DHCPv4, error) {
 
 	atomic.AddUint64(&s.acksTotal, 1)
 	return resp, nil
+}
+
+// lookupNexusAllocation returns the address Nexus has allocated to the client, or
+// nil when the HTTP allocator is not configured, the client has no allocation
+// (walled garden: the local pool serves it) or the lookup failed.
+func (s *Server) lookupNexusAllocation(ctx context.Context, mac net.HardwareAddr) net.IP {
+	if s.httpAllocator == nil || s.httpAllocatorPool == "" {
+		return nil
+	}
+	ip, _, _, err := s.httpAllocator.LookupIPv4(ctx, mac.String(), s.httpAllocatorPool)
+	if err != nil {
+		return nil
+	}
+	return ip
 }
 
 // handleRelease handles DHCP RELEASE
